@@ -204,6 +204,42 @@ theorem parentsOK_clearKids {h : Heap} (p : Nat) (H : ParentsOK h) : ParentsOK (
   · exact parentsOK_releaseAll _ (parentsOK_emptyKids p true H)
   · exact H
 
+
+theorem parentsOK_insertAt {h : Heap} (p j c : Nat) (H : ParentsOK h) : ParentsOK (insertAt h p j c) := by
+  unfold insertAt
+  split
+  · rename_i hj
+    split
+    · rename_i hg
+      simp only [Bool.and_eq_true, decide_eq_true_eq] at hg
+      obtain ⟨⟨⟨hpn, _⟩, hpl⟩, _⟩ := hg
+      have hmem : ∀ d, (d = c ∨ d ∈ (h.node p).kids) → d ∈ (h.node p).kids.insertIdx j c := by
+        intro d hd
+        rw [List.mem_insertIdx (Nat.le_of_lt hj)]
+        exact hd
+      intro d q hd
+      simp only [upd] at hd ⊢
+      by_cases hdc : d = c
+      · subst hdc
+        simp only [if_true] at hd
+        cases hd
+        by_cases hpd : p = d
+        · subst hpd; simp only [if_true]; exact ⟨hpl, hmem _ (Or.inl rfl), hpn⟩
+        · simp only [if_neg hpd, if_true]; exact ⟨hpl, hmem _ (Or.inl rfl), hpn⟩
+      · simp only [if_neg hdc] at hd
+        have hd' : (h.node d).parent = some q := by
+          by_cases hdp : d = p
+          · simp only [hdp, if_true] at hd ⊢; exact hd
+          · simp only [if_neg hdp] at hd; exact hd
+        have ⟨h1, h2, h3⟩ := H d q hd'
+        by_cases hqc : q = c <;> by_cases hqp : q = p
+        · subst hqc; subst hqp; simp only [if_true]; exact ⟨h1, hmem _ (Or.inr h2), h3⟩
+        · subst hqc; simp only [if_true, if_neg hqp]; exact ⟨h1, h2, h3⟩
+        · subst hqp; simp only [if_neg hqc, if_true]; exact ⟨h1, hmem _ (Or.inr h2), h3⟩
+        · simp only [if_neg hqc, if_neg hqp]; exact ⟨h1, h2, h3⟩
+    · exact H
+  · exact H
+
 theorem parentsOK_step {h : Heap} (o : Op) (H : ParentsOK h) : ParentsOK (step h o) := by
   cases o with
   | new v => exact parentsOK_setVar _ _ (parentsOK_alloc H)
@@ -211,6 +247,11 @@ theorem parentsOK_step {h : Heap} (o : Op) (H : ParentsOK h) : ParentsOK (step h
     simp only [step]
     split
     · exact parentsOK_attach _ _ H
+    · exact H
+  | insert v w j =>
+    simp only [step]
+    split
+    · exact parentsOK_insertAt _ _ _ H
     · exact H
   | remove v j =>
     simp only [step]
@@ -386,12 +427,28 @@ theorem deadOK_clearKids {h : Heap} (p : Nat) (H : DeadOK h) : DeadOK (clearKids
     exact deadOK_release _ _ _ (deadOK_emptyKids p true (Or.inr ⟨rfl, hl⟩) H)
   · exact H
 
+theorem deadOK_insertAt {h : Heap} (p j c : Nat) (H : DeadOK h) : DeadOK (insertAt h p j c) := by
+  unfold insertAt
+  split
+  · split
+    · rename_i hg
+      simp only [Bool.and_eq_true, decide_eq_true_eq] at hg
+      obtain ⟨⟨_, hpl⟩, hcl⟩ := hg
+      apply deadOK_upd_live
+      · simp only [upd]; split <;> exact hcl
+      · exact deadOK_upd_live (by exact hpl) H
+    · exact H
+  · exact H
 theorem deadOK_step {h : Heap} (o : Op) (H : DeadOK h) : DeadOK (step h o) := by
   cases o with
   | new v => exact deadOK_setVar _ _ (deadOK_alloc H)
   | append v w =>
     simp only [step]; split
     · exact deadOK_attach _ _ H
+    · exact H
+  | insert v w j =>
+    simp only [step]; split
+    · exact deadOK_insertAt _ _ _ H
     · exact H
   | remove v j =>
     simp only [step]; split
